@@ -16,7 +16,8 @@ _program_src = _mod.program_src
 IMPORTS = "From JV Require Import Lib.Base Lib.C12Syntax Model.C12Cli Spec.C12CliSpec Corr.C12Judge."
 RULE = ("seeded random programs: a function, a class with 0-3 methods, a list of 2-4 functions/classes, or a nested "
         "dict (depth <=3, optional _help entries) of them; signatures of 0-6 parameters over int/str/bool/List[int]/"
-        "Optional[int]/Optional[str]/Optional[List[int]], with/without default (incl. `= None` on a non-Optional type), positional-or-keyword "
+        "Optional[int]/Optional[str]/Optional[List[int]]/the dataclass Point/Optional[Point] (values given whole: one JSON argv "
+        "value, --k.x/--k.y, or a config section), with/without default (incl. `= None` on a non-Optional type), positional-or-keyword "
         "and keyword-only, private (_x) names, names that are attributes of jsonargparse.Namespace (items, keys, values, get, "
         "pop, update, clone, as_dict), str defaults that a YAML reader would not leave a string (null, ~, 5, true, '', 1e3), "
         "names shared between constructor and methods, and (rarely) the names config/subcommand/help/print_config "
@@ -461,6 +462,14 @@ def fixed_cases():
                 "toks": [["pos", "grp"], ["pos", "Node"], ["opt", "rho", P(1, 2)], ["pos", "walk"], ["opt", "psi", P(0, 3)]], "data_nested": True})
     out.append({"as_pos": True, "components": {"form": "one", "c": rb}, "toks": [["cfg", [["rho", {"leaf": P(2, 2)}], ["walk", {"sec": [["xi", {"leaf": P(4, 4)}]]}]]], ["pos", "walk"]]})
     out.append({"as_pos": True, "components": {"form": "one", "c": pt}, "toks": [["opt", "phi", P(1, 1)], ["opt", "phi", None]]})
+    # a class without constructor parameters among several components: its subparser keeps --config because of its methods
+    nc = {"k": "cls", "name": "Task", "init": [], "meths": [["apply", [I("alpha"), I("beta", 2)]], ["reset", []]]}
+    nn = {"k": "cls", "name": "Unit", "init": [], "meths": [["reset", []]]}
+    out.append({"as_pos": True, "components": {"form": "list", "cs": [nc, h]},
+                "toks": [["pos", "Task"], ["cfg", [["apply", {"sec": [["alpha", {"leaf": 3}]]}]]], ["pos", "apply"]]})
+    out.append({"as_pos": True, "components": {"form": "dict", "kids": [["grp", {"k": "grp", "kids": [["Task", nc]]}], ["go", h]]},
+                "toks": [["pos", "grp"], ["pos", "Task"], ["cfg", [["apply", {"sec": [["alpha", {"leaf": 3}], ["beta", {"leaf": 4}]]}]]], ["pos", "apply"]], "cfg_via": "file"})
+    out.append({"as_pos": True, "components": {"form": "list", "cs": [nn, h]}, "toks": [["pos", "Unit"], ["cfg", []], ["pos", "reset"]]})
     for o in out:
         o.setdefault("cfg_via", "string")
     return out
@@ -671,7 +680,9 @@ META = {
     "level_text": "Theorem C12_binds_exactly (coq/Properties/C12.v, = model_refines_spec in Proofs/C12CliProofs.v): for EVERY component "
                   "tree (function, class with any number of methods, list, nested dict of any depth with _help entries), every "
                   "signature list (any length, types, defaults, private names), every tokenised command line (options, bare words, "
-                  "--config documents with nested sections, repeated and shuffled), every text->value conversion function and both "
+                  "--config documents with nested sections, repeated and shuffled), every text->value conversion function (so also for dataclass-typed and Optional[dataclass] parameters, whose values are "
+                  "built by instantiate_classes: TData / VData / RData are constructors of the type, value and raw grammars inside the "
+                  "induction, with the field defaults as the type's own default) and both "
                   "values of as_positional: if no Optional parameter has a str default that YAML reads as null, then the "
                   "code-shaped model of the PRESENT auto_cli (after the repairs 5bbebb1/2f69862/4bb4764; the three guards of the "
                   "earlier rounds are gone) (argparse table of "
@@ -695,7 +706,9 @@ META = {
     "level_note": "Partial. Proved for all inputs of the modelled space; NOT modelled (trusted or only exercised): introspection "
                   "(inspect.signature, docstrings, stubs, parameter resolvers) - the model starts from the signature; argparse's "
                   "tokenisation of argv incl. abbreviations and `--opt value` splitting (exercised); the text/JSON->value conversion "
-                  "(a parameter of every theorem; the run uses canonical texts of int/str/bool/List[int]/Optional); CPython's keyword "
+                  "INCLUDING the instantiation of dataclass values by instantiate_classes (a parameter `conv` of every theorem; the "
+                  "run uses canonical texts of int/str/bool/List[int]/Optional and whole values of the one dataclass Point, whose "
+                  "instances the generated callee reports field by field); CPython's keyword "
                   "call binding (modelled as bind_params, trusted); keyword-only vs positional-or-keyword kind (irrelevant to a "
                   "**kwargs call, exercised); --config given as a file (exercised). The model answers EUnmodelled (nothing claimed, "
                   "never generated) for: constructor parameter named `subcommand` of a class WITH methods or named like a method, subcommand named `config`, "
